@@ -1,4 +1,4 @@
-//! pie_run gen --family F --n N --seed S --out SCENARIOS.jsonl [--max-t 5 --max-r 4 --max-len 3 --steps 5 --wide 0.2 --fixed t,r,len]
+//! pie_run gen --family F --n N --seed S --out SCENARIOS.jsonl [--max-t 5 --max-r 4 --max-len 3 --steps 5 --wide 0.2 --chain -1 --fixed t,r,len]
 //! pie_run run --scenarios FILE --out TRACE.ndjson [--repeat K]
 //!   executes scenarios (JSON lines) against the real library; with --repeat K each scenario is executed K times
 //!   on fresh instances and the K traces are written to TRACE.ndjson, TRACE.ndjson.2, ... (determinism check).
@@ -27,6 +27,7 @@ fn main() {
         max_len: get("max-len", "3").parse().unwrap(),
         steps: get("steps", "5").parse().unwrap(),
         wide: get("wide", "0.2").parse().unwrap(),
+        chain: get("chain", "-1").parse().unwrap(),
       };
       let n: usize = get("n", "10").parse().unwrap();
       let seed: u64 = get("seed", "1").parse().unwrap();
